@@ -15,8 +15,11 @@ Written from the property statement and from the documented meaning of the six p
 * `RequireAndVerifyAnyKeyUsageClientCert`  the same, but the certificate's key usage is ignored
 
 "valid" = chains to the configured client roots and is in date at `Config.Time` (property
-text) and — except under the last policy — its extended key usage permits client
-authentication.  Whenever the client sent a certificate it must also have proved possession of
+text) and — except under the last policy — its extended key usage is one the library accepts
+for a TLCP peer certificate: the documented set is {clientAuth, serverAuth} (a spec literal; this
+is wider than crypto/tls, which accepts clientAuth only — noted, not a finding: the property
+asks for no particular usage).  A certificate whose usage is outside that set (codeSigning only,
+…) is the "wrong extended key usage" of the property's quantifier.  Whenever the client sent a certificate it must also have proved possession of
 the key by a `CertificateVerify` that is valid under that certificate's key over the handshake
 so far (property text).
 
@@ -135,9 +138,10 @@ def pop (b : Behaviour) : Bool :=
 
 end Behaviour
 
-/-- validity of one certificate under a policy (documented reading) -/
+/-- validity of one certificate under a policy (documented reading): the acceptable extended
+key usages are {clientAuth, serverAuth}, any under `RequireAndVerifyAnyKeyUsageClientCert` -/
 def validUnder (p : Policy) (c : Cert) : Bool :=
-  if p.ignoresUsage then c.okAnyUsage else c.okClient
+  if p.ignoresUsage then c.okAnyUsage else c.okClientOrServer
 
 /-- **The policy is satisfied by the behaviour.** -/
 def PolicySatisfied (p : Policy) (b : Behaviour) : Bool :=
@@ -176,16 +180,18 @@ structure Observed where
   resumed : Bool
   peerCerts : Nat
   chains : Nat
+  /-- a CertificateRequest was seen in the server's flight (`none`: the flight was never sent) -/
+  certReq : Option Bool := none
   deriving DecidableEq, Repr, Inhabited
 
 /-- Judgement of one full handshake by the property: `none` = fine. -/
 def judgeFull (p : Policy) (b : Behaviour) (o : Observed) : Option (String × String) :=
-  if o.completed && !PolicySatisfied p b then
+  if o.certReq.isSome && o.certReq != some (certRequested p b.ecdhe) then
+    some ("request", s!"CertificateRequest {if certRequested p b.ecdhe then "missing" else "sent"} under {p.name}")
+  else if o.completed && !PolicySatisfied p b then
     -- the reason names the clause
     if p.requiresCert && !b.present then some ("policy", s!"completed without the certificate {p.name} requires")
     else if b.present && !b.pop then some ("pop", "completed although the client sent a certificate and did not prove possession of its key")
-    else if p.verifies && b.relied.all (fun c => if p.ignoresUsage then c.okAnyUsage else c.okClientOrServer) then
-      some ("eku-serverauth", s!"completed under {p.name} with a certificate whose extended key usage does not permit client authentication")
     else some ("policy", s!"completed although a certificate that {p.name} must verify is not valid")
   else if o.completed && !FlowOK p b then some ("flow", "completed on a client flight the standard does not allow")
   else if !o.completed && ShouldComplete p b then some ("refused", s!"failed although {p.name} is satisfied and the client behaved correctly")
@@ -201,7 +207,13 @@ def judgeFull (p : Policy) (b : Behaviour) (o : Observed) : Option (String × St
 only if that behaviour satisfies `p`. -/
 def judgeResumed (p : Policy) (orig : Behaviour) (o : Observed) : Option (String × String) :=
   if o.completed && o.resumed && !PolicySatisfied p orig then
-    some ("resumed-policy", s!"session resumed under {p.name}, which the handshake that created it does not satisfy")
+    -- the same three clauses as for a full handshake
+    if p.requiresCert && !orig.present then
+      some ("resumed-policy", s!"session without client certificate resumed under {p.name}, which requires one")
+    else if orig.present && !orig.pop then
+      some ("pop", "session resumed whose certificates were recorded without a proof of possession")
+    else
+      some ("resumed-policy", s!"session resumed under {p.name} although its certificates are not valid under the configuration now in force")
   else if o.completed && o.resumed && o.peerCerts != 0 && !orig.pop then
     some ("pop", "peer certificates reported on a resumed session without a checked proof of possession")
   else if o.completed && o.resumed && o.chains != 0 && !(orig.relied.all (fun c => c.okAnyUsage) && orig.present) then
